@@ -95,6 +95,12 @@ def shards(tier, seed):
     for m in BURES:
         for n_cond, d in ([(3, 1), (3, 2), (4, 1), (4, 2)] if thorough else [(3, 1), (3, 2), (4, 1)]):
             out.append({'kind': 'bures', 'method': m, 'n_cond': n_cond, 'd': d})
+    # F: sequences of measures on ONE pair of input objects (an in-place step inside one measure
+    #    would corrupt every later call on the same objects)
+    for rep in ('rdms', 'array'):
+        for n_cond in (3, 4):
+            for order in range(4):
+                out.append({'kind': 'sequence', 'rep': rep, 'n_cond': n_cond, 'order': order})
     # E: rho-a against brute-force expectation over tie-breakings
     out.append({'kind': 'rhoa_bf', 'alpha': '012^3', 'rows': [0, 27]})
     for start in range(0, 64, 4):
@@ -172,6 +178,8 @@ def run_case(case, ctx):
                           'sigma_k=%s' % case['sigma'])
     elif kind == 'laws':
         _laws(case, ctx)
+    elif kind == 'sequence':
+        _sequence(case, ctx)
     elif kind == 'bures':
         _bures(case, ctx)
     elif kind == 'rhoa_bf':
@@ -288,6 +296,38 @@ def _laws(case, ctx):
                 if not np.allclose(a, b, rtol=0, atol=2 * TOL_CG):
                     ctx.fail('compare|method=%s,sigma_k=vector|differs-from-diag-matrix' % method, sub,
                              '%r vs %r' % (a, b))
+
+
+def _sequence(case, ctx):
+    from rsatoolbox.rdm import compare
+    from mc.util import fingerprint
+    n = case['n_cond']
+    L = n * (n - 1) // 2
+    g = rng_for(ctx.seed, 'seq', n, case['order'])
+    # positive (Euclidean-like) values with a clearly non-zero mean
+    X = np.round(g.uniform(0.5, 3.0, size=(2, L)), 4)
+    Y = np.round(g.uniform(0.5, 3.0, size=(3, L)), 4)
+    X0, Y0 = X.copy(), Y.copy()
+    a, b = _wrap(X, case['rep']), _wrap(Y, case['rep'])
+    orders = [['corr', 'cosine', 'corr_cov', 'cosine_cov', 'spearman', 'rho-a', 'tau-a', 'cosine'],
+              ['corr_cov', 'cosine_cov', 'corr', 'cosine', 'kendall'],
+              ['spearman', 'cosine', 'corr', 'cosine', 'rho-a', 'corr'],
+              ['cosine_cov', 'corr', 'tau-a', 'cosine', 'corr_cov', 'cosine_cov']]
+    seq = orders[case['order'] % len(orders)]
+
+    def content(o):
+        return fingerprint(o if isinstance(o, np.ndarray) else [o.dissimilarities, o.rdm_descriptors, o.pattern_descriptors])
+    fa, fb = content(a), content(b)
+    for step, method in enumerate(seq):
+        sub = dict(case, step=step, method=method, sequence=seq)
+        with ctx.guard('compare|sequence-on-same-inputs,method=%s' % method, sub):
+            got = compare(a, b, method=method)
+            tol = TOL_CG if method in WHITE else TOL_PLAIN
+            _judge_matrix(ctx, sub, method, got, X0, Y0, None, tol, 'sequence-on-same-inputs')
+            if content(a) != fa or content(b) != fb:
+                ctx.fail('compare|method=%s|input-modified' % method, sub,
+                         'compare(..., %r) changed its input objects' % method)
+                return
 
 
 def _bures(case, ctx):
